@@ -1056,6 +1056,14 @@ impl HttpRequest for SimHttp {
             let (mut body_bytes, mut body_view) = render_body(&r.body, view.as_ref(), r.prefix);
             let mut status = r.status;
             let mut retry_after = r.retry_after.clone();
+            // name cases 3 and 4 send the values under a header that is NOT X-Retry-After (the standard Retry-After, a
+            // look-alike): for the protocol - and for every model reading the log - this response carries no interval
+            let decoy_name = match r.retry_after_name_case {
+                3 => Some("Retry-After"),
+                4 => Some("X-Retry-After-Seconds"),
+                _ => None,
+            };
+            let decoy_values = if decoy_name.is_some() { std::mem::take(&mut retry_after) } else { vec![] };
             let cup = g.script.cup.clone();
             let mut etag: Option<String> = None;
             let mut authentic = true;
@@ -1159,6 +1167,13 @@ impl HttpRequest for SimHttp {
                 1 => "x-retry-after",
                 _ => "X-RETRY-AFTER",
             };
+            if let Some(dn) = decoy_name {
+                for v in &decoy_values {
+                    if let Ok(hv) = http::HeaderValue::from_bytes(v) {
+                        b = b.header(dn, hv);
+                    }
+                }
+            }
             let mut sent_retry_after = vec![];
             for v in &retry_after {
                 if let Ok(hv) = http::HeaderValue::from_bytes(v) {
